@@ -480,6 +480,9 @@ def plan(ctx, prop="C04"):
             jobs.append(((prop, "chain", node, "native", "await", 2, 0), 1))
         if node != "direct":
             jobs.append(((prop, "chain", node, "sync", "await", 2, 0), 1))
+    # a consumer whose awaitable is already complete when it is handed back
+    for node in ("direct", "map", "buffer:1", "map_async:1", "sliding_window:2", "partition:2"):
+        jobs.append(((prop, "chain", node, "done", "await", 3, 0), 1))
     # counters created with initial=1: the caller's own hold, let go at any moment
     for node in ("direct", "map", "buffer:1", "sliding_window:2"):
         jobs.append(((prop, "chain", node, "future", "await", 2, 0, "init1"), 1))
